@@ -419,3 +419,45 @@ def c17_r7(ctx):
                        loc=ctx.nodeloc(f, c))
     if n < 2:
         raise AnalysisError("only %d matched_terms/query_terms call sites in highlight.py" % n)
+
+
+@rule("C17", "R9", "K2", "a formatter that escapes its output escapes the matched words too",
+      min_instances=1,
+      clause="For every highlight Formatter class whose _text() is not the identity (HtmlFormatter escapes &, <, >): in its format_token() "
+             "the text obtained from get_text(...) reaches the output only through self._text(...). format_fragment() already sends the "
+             "text between the matches through _text(); a token pasted raw breaks the claim that the excerpt, stripped of markup, is a "
+             "substring of the source text (and lets document text inject markup).")
+def c17_r9(ctx):
+    prog = ctx.prog
+    base = prog.cls("highlight.Formatter")
+    n = 0
+    for K in prog.subclasses(base, strict=True):
+        tx = prog.lookup(K, "_text")
+        ft = prog.lookup(K, "format_token")
+        if tx is None or ft is None or tx.cls is base:
+            continue
+        body = [st for st in tx.node.body if not (isinstance(st, ast.Expr) and isinstance(st.value, ast.Constant))]
+        if len(body) == 1 and isinstance(body[0], ast.Return) and isinstance(body[0].value, ast.Name):
+            continue        # identity
+        n += 1
+        ctx.saw(ft)
+        parents = {}
+        for p_ in ast.walk(ft.node):
+            for ch in ast.iter_child_nodes(p_):
+                parents[id(ch)] = p_
+        gets = [c for c in norm.calls_in(ft.node) if norm.call_name(c) == "get_text"]
+        if not gets:
+            ctx.ob(ft, True, "%s.format_token() does not read the token text itself" % K.name)
+            continue
+        for c in gets:
+            par = parents.get(id(c))
+            ok = isinstance(par, ast.Call) and norm.canon(par.func) == "self._text"
+            if not ok and isinstance(par, ast.Assign) and len(par.targets) == 1 and isinstance(par.targets[0], ast.Name):
+                v = par.targets[0].id
+                uses = [x for x in ast.walk(ft.node) if isinstance(x, ast.Name) and x.id == v and isinstance(x.ctx, ast.Load)]
+                wrapped = [x for x in uses if isinstance(parents.get(id(x)), ast.Call) and norm.canon(parents[id(x)].func) == "self._text"]
+                ok = bool(uses) and len(uses) == len(wrapped)
+            ctx.ob(ft, ok, "the token text from get_text() goes through self._text() before it is used",
+                   detail="%s._text() escapes; this text does not pass through it" % K.name if not ok else "", loc=ctx.nodeloc(ft, c))
+    if n < 1:
+        raise AnalysisError("no escaping formatter found")
